@@ -1,6 +1,7 @@
 package main
 
 import (
+	"os"
 	"go/token"
 	"strings"
 
@@ -261,6 +262,15 @@ func c17r4(r *R) {
 		if ret, ok := i.(*ssa.Return); ok {
 			e0, e1 := c.Expr(ret.Results[0]), c.Expr(ret.Results[1])
 			o.Check((e0 == "nil") != (e1 == "nil"), "Accept returns (%s, %s)", e0, e1)
+			// a connection received from the hand-off channel is what Accept returns, with no error
+			if gsr := c.guardStrs(i.Block()); hasGuard(gsr, "+select1#1") {
+				o.AtI(i).Check(strings.HasPrefix(e0, "select1#") && e1 == "nil", "with a connection received from the hand-off channel Accept returns (%s, %s), want (the connection, nil): the HTTP/1.1 server would stop at the first connection", e0, e1)
+			} else if e1 == "nil" && (hasGuard(gsr, "-select1#1") || hasGuard(gsr, "+(0 == select1#0)")) {
+				o.AtI(i).Fail("Accept returns %s without an error although nothing was received (conditions %v)", e0, gsr)
+			}
+			if os.Getenv("FPCHECK_DEBUG_C17") != "" {
+				println("C17 accept return:", e0, "|", e1, "|", strings.Join(c.guardStrs(i.Block()), " ; "))
+			}
 			// the error of the Done edge is what serveHTTP1 recognises as a regular end (errors.Is(err, context.Canceled)):
 			// the context's own Err(), not its cause or a fresh error, otherwise serveHTTP1 panics on shutdown
 			if gs := c.guardStrs(i.Block()); hasGuard(gs, "+(0 == select1#0)") {
